@@ -32,6 +32,11 @@ def other_value(key, cur, k):
     return None
 
 
+def get_families_of(obj):
+    from magpylib._src.style import get_families
+    return get_families(obj)
+
+
 def nested(key, v):
     parts = key.split("_")
     d = v
@@ -87,6 +92,11 @@ def sweep(ctx, n_leaves):
                         continue
                     done += 1
                     stats[fam] = stats.get(fam, 0) + 1
+                    fresh = get_leaf(mk().style, key)
+                    if fresh is not None:
+                        bad(f"style:{fam}:{key}:object-default-shadows-family", f"a fresh object's own style leaf is {fresh!r} instead of None, so family/base defaults never apply",
+                            {"family": fam, "leaf": key, "fresh_object_value": fresh})
+                        continue
                     # (a) show kwarg
                     o = mk()
                     if get_leaf(get_style(o, magpy.defaults, **{"style_" + key: v_kw}), key) != v_kw:
@@ -106,7 +116,7 @@ def sweep(ctx, n_leaves):
                     if get_leaf(o1.style, key) != v_kw:
                         bad(f"style:{fam}:{key}:last-wins", "last assignment does not win", {"family": fam, "leaf": key})
                     # independence
-                    if get_leaf(o2.style, key) != v_obj or get_leaf(mk().style, key) is not None:
+                    if get_leaf(o2.style, key) != v_obj or get_leaf(mk().style, key) is not None:  # fresh objects have unset leaves (checked above)
                         bad(f"style:{fam}:{key}:leak", "style change leaked to another object", {"family": fam, "leaf": key})
                     c = o2.copy()
                     set_attr_chain(c.style, key, v_kw)
@@ -135,6 +145,37 @@ def sweep(ctx, n_leaves):
                     if magpy.defaults.as_dict() != pristine:
                         bad(f"style:{fam}:{key}:reset", "defaults.reset() did not restore every default", {"family": fam, "leaf": key})
                         magpy.defaults.update(pristine)
+                # falsy but valid values (False, 0) as family defaults, incl. the more specific of two families
+                for key in keys[: max(4, n_leaves // 2)]:
+                    cur = dflat[key]
+                    falsy = False if isinstance(cur, bool) else (0 if isinstance(cur, (int, float)) and not isinstance(cur, bool) else None)
+                    if falsy is None:
+                        continue
+                    truthy = True if isinstance(cur, bool) else (cur if cur else 1)
+                    famstyle = getattr(magpy.defaults.display.style, fam)
+                    if key not in famstyle.as_dict(flatten=True, separator="_"):
+                        continue
+                    try:
+                        mk().style.update(**{key: falsy})
+                    except Exception:
+                        continue
+                    if get_leaf(mk().style, key) is not None:
+                        continue  # reported as object-default-shadows-family
+                    done += 1
+                    try:
+                        # every less specific layer says `truthy`, the object's most specific family says `falsy`
+                        for other in get_families_of(mk()):
+                            st = getattr(magpy.defaults.display.style, other, None)
+                            if st is not None and other != fam and key in st.as_dict(flatten=True, separator="_"):
+                                set_attr_chain(st, key, truthy)
+                        if key in magpy.defaults.display.style.base.as_dict(flatten=True, separator="_"):
+                            set_attr_chain(magpy.defaults.display.style.base, key, truthy)
+                        set_attr_chain(famstyle, key, falsy)
+                        got = get_leaf(get_style(mk(), magpy.defaults), key)
+                        if got != falsy or isinstance(got, bool) != isinstance(falsy, bool):
+                            bad(f"style:{fam}:{key}:falsy-family-default", f"family default {falsy!r} is ignored (effective value {got!r})", {"family": fam, "leaf": key, "value": falsy})
+                    finally:
+                        magpy.defaults.reset()
                 # invalid names / values are rejected
                 o = mk()
                 for what, f in (("name", lambda: o.style.update(nonexistentproperty=1)), ("value", lambda: o.style.update(opacity=7)),
